@@ -582,9 +582,17 @@ impl Storage {
             .expect("batch put should be ok");
         let tx_hash = tx.calc_tx_hash();
         let tx_index = u32::max_value();
-        let key = Key::TxHash(&tx_hash).into_vec();
-        let value = Value::Transaction(block_number, tx_index as TxIndex, tx);
-        batch.put_kv(key, value).expect("batch put should be ok");
+        // Do not overwrite the position of a transaction which has been stored when its block
+        // was filtered, it is required to find the cells of the transaction.
+        let is_indexed = self
+            .get_transaction(&tx_hash)
+            .map(|(_, stored_tx_index, _)| stored_tx_index != tx_index)
+            .unwrap_or(false);
+        if !is_indexed {
+            let key = Key::TxHash(&tx_hash).into_vec();
+            let value = Value::Transaction(block_number, tx_index as TxIndex, tx);
+            batch.put_kv(key, value).expect("batch put should be ok");
+        }
         #[cfg(ckb_light_client_verif)]
         crate::verif_hooks::point("write", "add_fetched_tx:batch");
         batch.commit().expect("batch commit should be ok");
@@ -720,9 +728,10 @@ impl Storage {
                             generated_by_block_number,
                             generated_by_tx_index,
                             previous_tx,
-                        )) = self.get_transaction(&previous_tx_hash).or(txs
+                        )) = txs
                             .get(&previous_tx_hash)
-                            .map(|(tx_index, tx)| (block_number, *tx_index, tx.clone())))
+                            .map(|(tx_index, tx)| (block_number, *tx_index, tx.clone()))
+                            .or_else(|| self.get_transaction(&previous_tx_hash))
                         {
                             let previous_output_index = input.previous_output().index().unpack();
                             if let Some(previous_output) =
